@@ -129,9 +129,14 @@ var (
 
 // PanicInfo is what Guard returns when the guarded call panicked.
 type PanicInfo struct {
-	Site string
-	Msg  string
+	Clause string // "panic", or the clause named by the panic value (harness sentinels)
+	Site   string
+	Msg    string
 }
+
+// Claused is implemented by harness sentinel panic values (e.g. the page-progress bound)
+// that stand for a clause of their own.
+type Claused interface{ VerifClause() string }
 
 var (
 	frameRe = regexp.MustCompile(`(github\.com/benoitkugler/webrender/[^\s(]+(?:\(\*?[A-Za-z0-9_]+\)\.[A-Za-z0-9_.]+)?)`)
@@ -181,7 +186,11 @@ func (c *Ctx) Guard(desc string, f func()) (pi *PanicInfo, skipped bool) {
 		curStartCPU.Store(0)
 		if r := recover(); r != nil {
 			st := string(debug.Stack())
-			pi = &PanicInfo{Site: SiteOf(st), Msg: NormMsg(fmt.Sprint(r))}
+			pi = &PanicInfo{Clause: "panic", Site: SiteOf(st), Msg: NormMsg(fmt.Sprint(r))}
+			if cl, ok := r.(Claused); ok {
+				pi.Clause = cl.VerifClause()
+				pi.Site = "-"
+			}
 		}
 	}()
 	f()
@@ -196,7 +205,7 @@ func (c *Ctx) GuardFail(desc string, features []string, f func()) bool {
 		return false
 	}
 	if pi != nil {
-		c.Fail(Failure{Clause: "panic", Site: pi.Site, Features: features, Case: desc, Detail: pi.Msg})
+		c.Fail(Failure{Clause: pi.Clause, Site: pi.Site, Features: features, Case: desc, Detail: pi.Msg})
 		return false
 	}
 	return true
